@@ -126,6 +126,13 @@ func (vm *VirtualMachine) start(ctx context.Context) error {
 	}
 	vm.running = true
 	vm.startCount++
+	// Operands left on the stack by an earlier invocation (its result, or
+	// whatever was pending when it failed) are dead now. Dropping them keeps
+	// repeated invocations from using up the stack.
+	for i := vm.sp; i >= 0; i-- {
+		vm.stack[i] = nil
+	}
+	vm.sp = -1
 	// Halt execution when the context is cancelled. The flag belongs to this
 	// run only, so that a watcher left over from an earlier run cannot halt
 	// this one.
